@@ -12,6 +12,7 @@ type config struct {
 	base        int // chain tip before the first block of the run
 	nids        int // lease identifiers (2..3)
 	subsec      bool
+	recvSkew    bool // received times are not the insertion clock: block header times, peers' clocks (± 2 h)
 	cbForeign   bool // universe may contain a spender of a coinbase's NON-wallet output
 	conflictPct int  // chance that a spend input reuses an already spent credit
 	nops        int
@@ -25,7 +26,7 @@ func (c *config) toMap() map[string]int64 {
 	m := map[string]int64{
 		"ntx": int64(c.ntx), "nscripts": int64(c.nscripts), "maturity": int64(c.maturity),
 		"reorgdepth": int64(c.reorgDepth), "base": int64(c.base), "nids": int64(c.nids),
-		"subsec": b2i(c.subsec), "cbforeign": b2i(c.cbForeign), "conflictpct": int64(c.conflictPct),
+		"subsec": b2i(c.subsec), "recvskew": b2i(c.recvSkew), "cbforeign": b2i(c.cbForeign), "conflictpct": int64(c.conflictPct),
 	}
 	for _, k := range opKinds {
 		m["w."+k] = int64(c.w[k])
@@ -59,6 +60,7 @@ func readCfg(p *core.Plan) *config {
 		base:        clampInt(p.C("base", 100), 0, 30000),
 		nids:        clampInt(p.C("nids", 2), 1, 8),
 		subsec:      p.C("subsec", 0) != 0,
+		recvSkew:    p.C("recvskew", 0) != 0,
 		cbForeign:   p.C("cbforeign", 0) != 0,
 		conflictPct: clampInt(p.C("conflictpct", 20), 0, 100),
 		w:           map[string]int{},
@@ -87,6 +89,7 @@ func swarm(r *core.Rand, prop, tier string) *config {
 	// 000a2b8) is part of one universe in six.
 	c.cbForeign = r.Chance(1, 6)
 	c.nops = r.Range(10, 50)
+	c.recvSkew = r.Chance(1, 2)
 	if tier == "thorough" && prop != "C10" && r.Chance(1, 4) {
 		c.nops = r.Range(70, 200)
 	}
